@@ -448,14 +448,19 @@ _R6 = [
     (("C04", "C06"), rules6.matrix_cell_bounds, 3, None, "MatrixGraph Edges::next reads a cell only with both coordinates below node_capacity"),
     (("C05", "C06"), rules6.csr_mirror_enumeration, 2, None, "Csr stores an undirected edge twice and counts it once, so EdgeReferences::next skips the mirrored copy"),
     (("C05",), rules6.list_search_direction, 2, None, "adj::List find_edge / update_edge both pick the first match of a forward scan"),
+    (("C06",), rules6.undirected_adaptor_symm, 2, None, "UndirectedAdaptor's neighbors/edges exclude a self-loop from one of the two chained halves (known finding: they do not)"),
     (("C06",), rules6.reversed_one_to_one, 2, None, "Reversed's iterators map the inner iterator one to one"),
     (("C09", "C07"), rules6.condensation_simple, 2, None, "condensation uses add_edge only when make_acyclic is false"),
     (("C10", "C07"), rules6.entry_arms, 3, None, "both arms of a score-table entry store the same quantity"),
     (("C11", "C07"), rules6.negcheck_unfiltered, 3, None, "bellman_ford's relaxation test is not filtered by an endpoint comparison"),
+    (("C11", "C07"), rules6.fw_diagonal_first, 2, None, "floyd_warshall initialises the self-distances before it enters the edge costs (a negative self-loop stays visible)"),
+    (("C11", "C07"), rules6.fw_infinity_guard, 2, None, "floyd_warshall adds two legs only when neither is max() (unreachable stays unreachable)"),
+    (("C11", "C07"), rules6.spfa_fifo, 2, None, "spfa's work list is FIFO (the |V|-visits bound behind its Err holds for that order only)"),
     (("C14",), rules6.scratch_grow_guard, 3, None, "causal_cones grows its scratch sets under len() < node_bound() only"),
     (("C15", "C07"), rules6.label_reset_whole, 2, None, "maximum_matching resets the whole label vector (dummy slot included)"),
     (("C16", "C07"), rules6.ap_no_disc_zero, 1, None, "articulation_points never branches on a discovery time compared with a constant"),
     (("C18",), rules6.graph6_ids, 2, None, "the graph6 encoder queries is_adjacent with ids yielded by node_identifiers()"),
+    (("C20",), rules6.dsatur_count, 2, None, "dsatur_coloring's colour count is maximum + 1 only when a node was coloured"),
     (("C20",), rules6.closure_index_type, 2, None, "steiner_tree's metric-closure graph has a concrete index type"),
 ]
 for _pids, _fn, _floor, _predf, _txt in _R6:
